@@ -1,8 +1,11 @@
 /- Model driver for property C15. One line = one history; snapshots are natural numbers.
    ops: solve <s> | save | folder <name|-> | set <i> | query <i>
-   answer: "<niter> | <getIter 0> <getIter 1> ... | <live>"  (none for an unreadable iteration) -/
+   answer: "<niter> | <getIter 0> <getIter 1> ... | <live>"  (none for an unreadable iteration)
+   A line starting with `ms`: mesh store (Model/MeshStore.lean), ops mesh <id> | folder <n> | save <n> (folder 0 is "");
+   answer: the mesh every entry of the history reads back as, or `fail` if a save cannot read a mesh. -/
 import EasyFEAVerif.Model.Proto
 import EasyFEAVerif.Model.IterStore
+import EasyFEAVerif.Model.MeshStore
 
 open EasyFEAVerif EasyFEAVerif.IterStore
 
@@ -15,11 +18,27 @@ def parseOps : List String → Option (List (Op Nat))
   | "query" :: i :: r => do let k ← i.toNat?; let rest ← parseOps r; return Op.query k :: rest
   | _ => none
 
+def parseMs : List String → Option (List (MeshStore.Op Nat))
+  | [] => some []
+  | "mesh" :: m :: r => do let k ← m.toNat?; let rest ← parseMs r; return MeshStore.Op.setMesh k :: rest
+  | "folder" :: f :: r => do let k ← f.toNat?; let rest ← parseMs r; return MeshStore.Op.setFolder k :: rest
+  | "save" :: f :: r => do let k ← f.toNat?; let rest ← parseMs r; return MeshStore.Op.save k :: rest
+  | _ => none
+
 def showOpt : Option Nat → String
   | some k => toString k
   | none => "none"
 
 def main : IO Unit := protoMain fun line =>
+  match tokens line with
+  | "ms" :: r =>
+    match parseMs r with
+    | some ops =>
+      match MeshStore.runWith MeshStore.readMesh (MeshStore.init 0) ops with
+      | some st => " ".intercalate ((List.range st.list.length).map fun i => showOpt (MeshStore.readMesh st i))
+      | none => "fail"
+    | none => "bad-op"
+  | _ =>
   match parseOps (tokens line) with
   | some ops =>
     let st := ops.foldl step (init 0 "")
